@@ -35,7 +35,7 @@ EXPLANATION = (
     "R14e the line loop delivers the current line once, then increments the counter once, then fetches the next line "
     "once, on every path; the first line is number 1; R14f no dispatcher rebinds its context parameter (the object "
     "whose output file receives the line after the loop); R14g a provider that was consumed by the tokenizer is "
-    "reset before anything reads lines from it. Not decided: the exact text of each delivered line (final-newline "
+    "reset before anything reads lines from it; R14h the line providers split the document on the newline character only (no str.splitlines / regular expressions). Not decided: the exact text of each delivered line (final-newline "
     "arithmetic), which tokens the parser produces."
 )
 ASSUMPTIONS = [
@@ -465,6 +465,41 @@ def r14g(ctx: Context) -> None:
             rule.fail(key, site.where, "the line loop is not fed from a FileSourceProvider")
 
 
+def r14h(ctx: Context) -> None:
+    """Line providers split the document on the newline character and on nothing else."""
+    prog = ctx.prog
+    rule = ctx.rule("R14h", "line providers split on the newline character only", 2)
+    module = prog.by_rel.get("pymarkdown/general/source_providers.py")
+    if module is None:
+        raise AnalysisError("source_providers.py not found")
+    splitters = 0
+    for func in prog.iter_functions("pymarkdown.general.source_providers."):
+        for node in walk_local(func.node):
+            if not (isinstance(node, ast.Call) and isinstance(node.func, ast.Attribute)):
+                continue
+            name = node.func.attr
+            key = func_key(func, node)
+            if name in ("splitlines", "partition", "rpartition") or (dotted(node.func) or "").startswith("re."):
+                rule.fail(key, where(func, node), f"{func.short} splits the document with {name}(): str.splitlines() also breaks lines at form feed, vertical tab, NEL, U+2028/2029 and friends, so rules receive other lines (and line numbers) than the file has")
+            elif name == "readlines":
+                splitters += 1
+                rule.ok(key, "file read line by line (newline-terminated lines)")
+            elif name in ("split", "rsplit"):
+                splitters += 1
+                sep = node.args[0] if node.args else None
+                if sep is not None and norm(sep).endswith("newline_character"):
+                    rule.ok(key, "split on ParserHelper.newline_character")
+                else:
+                    rule.fail(key, where(func, node), f"{func.short} splits the document on '{norm(sep) if sep is not None else 'whitespace'}', not on the newline character")
+    if splitters < 2:
+        raise AnalysisError(f"only {splitters} line-splitting constructs found in the source providers (3 confirmed)")
+    # the file provider strips exactly one trailing newline character per line
+    provider = prog.method("pymarkdown.general.source_providers.FileSourceProvider", "__init__")
+    strips = [n for n in walk_local(provider.node) if isinstance(n, ast.Call) and isinstance(n.func, ast.Attribute) and n.func.attr in ("strip", "rstrip", "lstrip")]
+    for node in strips:
+        rule.fail(func_key(provider, node), where(provider, node), "the file provider strips characters from lines: trailing whitespace that rules must see is lost")
+
+
 def run(ctx: Context) -> None:
     ra = RaiseAnalysis(ctx.prog)
     r14ab(ctx, ra)
@@ -474,3 +509,4 @@ def run(ctx: Context) -> None:
     r14e(ctx)
     r14f(ctx)
     r14g(ctx)
+    r14h(ctx)
